@@ -83,3 +83,17 @@ def scope_replay_wrapper_contract(program, ast, expected):
     from a816.parse.codegen import code_gen
     code = code_gen(ast, program.resolver)
     scope_replay_contract(program, code, expected)
+
+
+def forward_shadowing_contract(program, ast, outer_addr, inner_addr):
+    """target: .db 0  { ptr = target  .db 1  target: }  -- a label is visible in its WHOLE scope, also before its definition: inside the block
+    `target` means the block's own (forward) label, not the enclosing scope's earlier one, and `ptr` is bound to it once the labels are resolved;
+    the same for a deferred macro argument `m(target)` whose application sits before the inner label."""
+    from a816.parse.codegen import code_gen
+    code = code_gen(ast, program.resolver)
+    program.resolve_labels(code)
+    scopes = program.resolver.scopes
+    check("outer_label_address", scopes[0].symbols.get("target") == outer_addr)
+    check("inner_label_address", scopes[1].symbols.get("target") == inner_addr)
+    check("symbol_bound_to_the_nearest_label_also_forward", scopes[1].symbols.get("ptr") == inner_addr)
+    check("enclosing_scope_unaffected", "ptr" not in scopes[0].symbols)
